@@ -285,6 +285,6 @@ def run(ctx):
     sub = Report("C12", "R-GROUPFILL", "require groups only receive LocalAssignment statements")
     for cfg, prog in ctx.programs.items():
         r_exh._groupfill(prog, sub, cfg)
-    return [rule_sort(ctx, "C12"), rule_group(ctx, "C12"), r_skip.rule_toggle(ctx, "C12"), r_skip.rule_sort_guard(ctx, "C12"), sub]
+    return [rule_sort(ctx, "C12"), rule_group(ctx, "C12"), r_skip.rule_toggle(ctx, "C12"), r_skip.rule_sort_guard(ctx, "C12"), r_skip.rule_node_type(ctx, "C12"), sub]
 
 
